@@ -14,6 +14,7 @@ from operator import mul
 from typing import TYPE_CHECKING
 from typing import Any
 from typing import Callable
+from typing import Hashable
 from typing import Iterator
 from typing import Mapping
 from typing import Sequence
@@ -506,9 +507,9 @@ class RenderContext:
         """Return a _safe_ string if auto escape is enabled."""
         return Markup(s) if self.auto_escape else s
 
-    def cycle(self, cycle_hash: int, length: int) -> int:
+    def cycle(self, cycle_hash: Hashable, length: int) -> int:
         """Return the index of the next item in the named cycle."""
-        namespace: dict[int, int] = self.tag_namespace["cycles"]
+        namespace: dict[Hashable, int] = self.tag_namespace["cycles"]
         idx = namespace.setdefault(cycle_hash, 0)
         namespace[cycle_hash] += 1
         return idx % length
